@@ -1,5 +1,6 @@
 (* C17 - type-erased (dyn) forms behave exactly like the operators they wrap. *)
-From Coq Require Import List.
+From Coq Require Import List ZArith.
+Import ListNotations.
 From UEC Require Import Ec.Compose Ec.Erased.
 
 Theorem C17_same_value : forall (S A B E E' : Type) (into : E -> E') (f : op S A B E) x s v s',
@@ -27,7 +28,26 @@ Theorem C17_erasing_twice : forall (S A B E E' E'' : Type) (i1 : E -> E') (i2 : 
 Proof. exact @erase_twice. Qed.
 Print Assumptions C17_erasing_twice.
 
+(* a consumer of erased selectors (the dynamic weighted list): the error of the option used arrives as Other(that error) -
+   wrapped exactly once per level of nesting, never un-nested, never reported as the list's own; options of weight zero
+   are never used *)
+Theorem C17_consumer_reports_the_erased_options_error : forall f m w ms e,
+  (forall r, fst (erase DOther (fun (_ : unit) (s : unit) => (r, s)) tt tt) = wrap_other r) /\
+  ((0 < w)%Z -> forced (S f) (DD [(m, w)]) = option_map wrap_other (forced f m)) /\
+  forced (S f) (DD ((m, 0%Z) :: ms)) = forced (S f) (DD ms) /\
+  (forced f (DD ms) = Some (inr e) -> e = DZero \/ exists e', e = DOther e') /\
+  ((0 < w)%Z -> forced f m = Some (inr e) -> exists e', forced (S f) (DD [(m, w)]) = Some (inr e') /\ others e' = S (others e)).
+Proof.
+  exact (fun f m w ms e => conj wrap_other_is_erase (conj (forced_only_member f m w) (conj (forced_zero_weight_ignored f m ms)
+         (conj (forced_never_unwraps f ms e) (forced_nested_once_more f m w e))))).
+Qed.
+Print Assumptions C17_consumer_reports_the_erased_options_error.
+
 Example C17_example :
   let f : op nat nat nat nat := fun x n => if Nat.eqb x 0 then (inr 7, S n) else (inl (x + n), S (S n)) in
   erase (fun e => (e, true)) f 3 10 = (inl 13, 12) /\ erase (fun e => (e, true)) f 0 10 = (inr (7, true), 11).
 Proof. split; reflexivity. Qed.
+Example C17_consumer_example :
+  forced 9 (DD [(DL 1, 0); (DD [(DL 9, 0); (DD [(DL (-2), 1)], 7)], 2); (DL 0, 0)])%Z = Some (inr (DOther (DOther (DOther (DLeaf 2))))) /\
+  forced 9 (DD [(DD [(DL 2, 0)], 1)])%Z = Some (inr (DOther DZero)) /\ forced 9 (DD [(DD [(DL 4, 1)], 3)])%Z = Some (inl 4%Z).
+Proof. repeat split. Qed.
